@@ -9,12 +9,13 @@ func init() {
 			"that the provision is reduced exactly under epoch ≥ reduction period + last reduction epoch together with storing the minter and the new last-reduction epoch, that nothing is minted before the start epoch, and that developer rewards are burned from the mint account, paid from the vesting account under a supply-offset bracket.",
 		NotCovered:  []string{"mint account empty / supply grows by exactly the provision as numbers", "long-run schedule over epochs"},
 		Assumptions: []string{"bank keeper semantics", "epoch hook is invoked once per epoch (C17)"},
-		MinObl:      36,
+		MinObl:      43,
 		Run:         runC18,
 	})
 }
 
 func runC18(c *rules.Ctx) {
+	mintStoreRules(c)
 	const K = "x/mint/keeper.Keeper."
 	const H = K + "AfterEpochEnd"
 	c.Let("PARAMS", "mintkeeper.Keeper.GetParams(k,ctx)")
